@@ -43,6 +43,12 @@ def call(fn, *a, kinds=("InvalidPerm", "InvalidDim", "InvalidSys"), **k):
 
 
 def rand_int_matrix(rng, shape, dtype, bits=12):
+    if dtype == "uint8":
+        return rng.integers(128, 256, size=shape).astype(np.uint8)      # block sums exceed the range of the dtype
+    if dtype == "int16":
+        return rng.integers(-32768, 32768, size=shape).astype(np.int16)
+    if dtype == "bool":
+        return rng.integers(0, 2, size=shape).astype(bool)
     lim = 1 << bits
     re = rng.integers(-lim + 1, lim, size=shape)
     if dtype == "complex128":
